@@ -435,12 +435,29 @@ def env_tier(default="quick"):
 # --------------------------------------------------------------------------- ddmin
 
 
+MINIMISE_BUDGET_S = float(os.environ.get("VERIF_MINIMISE_S", "90"))
+_minimise_deadline = [None]
+
+
+def start_minimise_clock():
+    """Minimisation is best effort: all ddmin calls of one violation share one wall-clock budget.
+    (The clock only bounds how far a failing case is shrunk; it never decides a verdict.)"""
+    _minimise_deadline[0] = time.time() + MINIMISE_BUDGET_S
+
+
+def minimise_time_left():
+    return _minimise_deadline[0] is None or time.time() < _minimise_deadline[0]
+
+
 def ddmin(items, still_fails, max_tests=400):
     """Classic delta debugging over a list; still_fails(sublist) -> bool."""
     tests = [0]
 
     def test(x):
         tests[0] += 1
+        if not minimise_time_left():
+            tests[0] = max_tests
+            return False
         return still_fails(x)
 
     n = 2
